@@ -844,7 +844,21 @@ func CaptureComposite(t Tier) []*Grammar {
 	if t == Quick {
 		ml = 5
 	}
-	return build("capcomp2", top(ts), []scheme{schemeOwn, schemeSlices, schemeToks}, "abc", ml)
+	out := build("capcomp2", top(ts), []scheme{schemeOwn, schemeSlices, schemeToks}, "abc", ml)
+	// a captured repetition inside a loop: the same repetition node runs several times, once more in an
+	// iteration that is given up, and again after the loop
+	loopAtoms := []func() *g.Node{
+		lit(";"), capOf(ref("Ident")),
+		func() *g.Node { return g.Grp(g.Seq(capMark(g.Grp(g.Ref("Ident"), '+')), g.Lit(";")), '*') },
+		func() *g.Node { return capMark(g.Grp(g.Ref("Ident"), '*')) },
+		func() *g.Node { return g.Grp(g.Seq(capMark(g.Grp(g.Seq(g.Lit("a"), g.Ref("Ident")), '+')), g.Lit(";")), '+') },
+	}
+	memo2 := map[int][]func() *g.Node{}
+	var ls []func() *g.Node
+	ls = append(ls, terms(1, loopAtoms, memo2)...)
+	ls = append(ls, terms(2, loopAtoms, memo2)...)
+	out = append(out, build("capcomp-loop", top(ls), []scheme{schemeOwn, schemeSlices}, "ab;", ml+1)...)
+	return out
 }
 
 // RecursiveCaptures: a production that contains itself (through a union), with captures of the ENCLOSING
@@ -874,6 +888,19 @@ func RecursiveCaptures(t Tier) []*Grammar {
 		// ( @Ident "a" @@ ";" )* @Ident
 		return g.Seq(g.Grp(g.Seq(id(), g.Lit("a"), g.Sub(-1, u), g.Lit(";")), '*'), id())
 	})
+	// the same shape as "alt-then-bang" with DIRECT recursion (a static Go type, fields *RecNode)
+	{
+		rec := &g.Prod{Name: "RecNode", Static: g.RecNode{}}
+		rec.Fields = []g.Field{{Name: "F0", Kind: g.FString}, {Name: "N1", Kind: g.FNode, Prod: rec}, {Name: "F2", Kind: g.FString}, {Name: "N3", Kind: g.FNode, Prod: rec}}
+		rec.Body = g.Alt(
+			g.Seq(g.Cap(0, g.Ref("Ident")), g.Lit("a"), g.Sub(1, rec), g.Lit("b"), g.Lit(";")),
+			g.Seq(g.Cap(2, g.Ref("Ident")), g.Grp(g.Seq(g.Lit("a"), g.Sub(3, rec), g.Lit("b")), '?')))
+		ml := 8
+		if t == Quick {
+			ml = 7
+		}
+		out = append(out, &Grammar{Family: "rec-capture-direct", Root: rec, Alphabet: "ab;", MaxLen: ml})
+	}
 	mk("lookahead", func(u *g.Prod) *g.Node {
 		// (?! @Ident "a" @@ ";" ) @Ident ( "a" @@ )?
 		return g.Seq(g.Look(g.Seq(id(), g.Lit("a"), g.Sub(-1, u), g.Lit(";")), '!'), id(), g.Grp(g.Seq(g.Lit("a"), g.Sub(-1, u)), '?'))
